@@ -434,3 +434,180 @@ def ask_queries(md, a):
         em = empty_match(r, md) if not a["stored"] else False
         out.append(((1, [a["effect"], a["enabled"], arity_ok, outs, em]), (2, [eidx, outs]), eidx, outs, arity_ok, em))
     return out
+
+
+# ======================================================================================================================
+# Role function asked MORE THAN ONCE per rule / with a rule-side third argument (C01/C08 stratum "role-calls", reused by
+# C02 under its own spec).  The names are digit strings that are prefixes / concatenations of each other ("1", "12",
+# "123", "2", "23", "3"): what g(a, b[, d]) answers is a function of the triple (a, b, d) and of the current role
+# assignments only.  "Which rules match" is evaluated here in Python, straight from the matcher's meaning:
+# reachability over the stored grouping rules (graphs stay far below the role manager's depth bound of 10).
+ROLE_CALL_TEMPLATE = """
+[request_definition]
+r = {rdef}
+
+[policy_definition]
+p = {pdef}
+
+[role_definition]
+g = {gdef}
+
+[policy_effect]
+e = {effect}
+
+[matchers]
+m = {matcher}
+"""
+RC_NAMES = ["1", "12", "123", "2", "23", "3"]
+RC_OBJS = ["data1", "data2"]
+RC_ACTS = ["read", "write"]
+
+
+def _reach_dom(grouping, a, b, dom):
+    return reachable([r[:2] for r in grouping if len(r) == 3 and r[2] == dom], a, b)
+
+
+ROLE_CALL_KINDS = {
+    # g asked about two different request fields against the rule's subject
+    "two-request-fields": dict(
+        rdef="uid, gid, obj, act", pdef="sub, obj, act, eft, tag", gdef="_, _",
+        matcher="(g(r.uid, p.sub) || g(r.gid, p.sub)) && r.obj == p.obj && r.act == p.act",
+        match=lambda g, q, r: (reachable(g, q[0], r[0]) or reachable(g, q[1], r[0])) and q[2] == r[1] and q[3] == r[2],
+        requests=lambda: [[u, gr, o, a] for u in RC_NAMES for gr in RC_NAMES for o in RC_OBJS for a in RC_ACTS],
+        rule=lambda rng: [rng.choice(RC_NAMES), rng.choice(RC_OBJS), rng.choices(RC_ACTS, weights=[4, 1])[0]],
+        link=lambda rng: [rng.choice(RC_NAMES), rng.choice(RC_NAMES)]),
+    # the domain handed to g comes from the RULE: one request meets (role, domain) pairs whose texts concatenate alike
+    "rule-side-domain": dict(
+        rdef="sub, obj, act", pdef="sub, dom, obj, act, eft, tag", gdef="_, _, _",
+        matcher="g(r.sub, p.sub, p.dom) && r.obj == p.obj && r.act == p.act",
+        match=lambda g, q, r: _reach_dom(g, q[0], r[0], r[1]) and q[1] == r[2] and q[2] == r[3],
+        requests=lambda: [[s_, o, a] for s_ in RC_NAMES for o in RC_OBJS for a in RC_ACTS],
+        rule=lambda rng: [rng.choice(RC_NAMES), rng.choice(RC_NAMES), rng.choice(RC_OBJS), rng.choices(RC_ACTS, weights=[4, 1])[0]],
+        link=lambda rng: [rng.choice(RC_NAMES), rng.choice(RC_NAMES), rng.choice(RC_NAMES)]),
+    # users and resources live in ONE role graph: g is asked about the subject and about the object
+    "subject-and-object": dict(
+        rdef="sub, obj, act", pdef="sub, obj, act, eft, tag", gdef="_, _",
+        matcher="g(r.sub, p.sub) && g(r.obj, p.obj) && r.act == p.act",
+        match=lambda g, q, r: reachable(g, q[0], r[0]) and reachable(g, q[1], r[1]) and q[2] == r[2],
+        requests=lambda: [[s_, o, a] for s_ in RC_NAMES for o in RC_NAMES for a in RC_ACTS],
+        rule=lambda rng: [rng.choice(RC_NAMES), rng.choice(RC_NAMES), rng.choices(RC_ACTS, weights=[4, 1])[0]],
+        link=lambda rng: [rng.choice(RC_NAMES), rng.choice(RC_NAMES)]),
+}
+
+# hand-made scenarios: the role of one name and the rule of another whose texts concatenate alike
+ROLE_CALL_FIXED = [
+    dict(kind="two-request-fields", grouping=[["12", "3"]],
+         rules=[["3", "data1", "read", "allow", "t0"], ["23", "data2", "read", "allow", "t1"], ["23", "data1", "read", "deny", "t2"]]),
+    dict(kind="two-request-fields", grouping=[["1", "23"], ["123", "2"], ["2", "3"]],
+         rules=[["3", "data2", "read", "deny", "t0"], ["23", "data2", "read", "allow", "t1"], ["3", "data1", "write", "allow", "t2"]]),
+    dict(kind="rule-side-domain", grouping=[["1", "2", "3"], ["12", "2", "3"], ["1", "23", "1"]],
+         rules=[["2", "3", "data1", "read", "allow", "t0"], ["12", "3", "data2", "read", "allow", "t1"], ["2", "31", "data2", "read", "allow", "t2"],
+                ["23", "1", "data2", "write", "deny", "t3"]]),
+    dict(kind="rule-side-domain", grouping=[["1", "23", "12"], ["12", "3", "1"]],
+         rules=[["23", "12", "data1", "read", "allow", "t0"], ["231", "2", "data1", "read", "deny", "t1"], ["2", "312", "data2", "read", "allow", "t2"]]),
+    dict(kind="subject-and-object", grouping=[["12", "3"], ["2", "23"]],
+         rules=[["3", "23", "read", "allow", "t0"], ["23", "3", "read", "allow", "t1"], ["3", "3", "write", "deny", "t2"]]),
+    dict(kind="subject-and-object", grouping=[["1", "2"], ["12", "123"], ["3", "12"]],
+         rules=[["2", "123", "read", "allow", "t0"], ["12", "12", "read", "deny", "t1"], ["123", "2", "read", "allow", "t2"]]),
+]
+
+
+def role_call_scenarios(rng, n_random):
+    out = [dict(s) for s in ROLE_CALL_FIXED]
+    for kind, k in ROLE_CALL_KINDS.items():
+        for _ in range(n_random):
+            grouping = []
+            for _ in range(rng.randint(1, 4)):
+                l_ = k["link"](rng)
+                if l_[0] != l_[1] and l_ not in grouping:
+                    grouping.append(l_)
+            rules = []
+            for i in range(rng.randint(2, 5)):
+                rules.append(k["rule"](rng) + [rng.choices(["allow", "deny", "maybe"], weights=[6, 3, 1])[0], f"t{i}"])
+            out.append(dict(kind=kind, grouping=grouping, rules=rules))
+    return out
+
+
+def role_call_spec(eidx, outs):
+    """decision and position of the deciding rule (None: decided by default) for the per-rule outcomes 'allow' / 'deny' /
+    other of the MATCHING rules in policy order: the four documented effect expressions as properties C01/C08 word them.
+    Under allow-and-deny an allow is reached by default (no single rule decides it)."""
+    first = lambda efts: next((i for i, o in enumerate(outs) if o in efts), None)
+    if eidx == 0:
+        i = first(("allow",))
+        return i is not None, i
+    if eidx == 1:
+        i = first(("deny",))
+        return i is None, i
+    if eidx == 2:
+        i = first(("deny",))
+        return (i is None and first(("allow",)) is not None), i
+    i = first(("allow", "deny"))
+    return (i is not None and outs[i] == "allow"), i
+
+
+def role_call_model_text(kind, effect):
+    k = ROLE_CALL_KINDS[kind]
+    return ROLE_CALL_TEMPLATE.format(rdef=k["rdef"], pdef=k["pdef"], gdef=k["gdef"], effect=effect, matcher=k["matcher"])
+
+
+def judge_role_call_scenario(sc, effect, eidx, cls_name="Enforcer", requests=None):
+    """run one scenario (kind, grouping, rules) under one effect on a fresh enforcer and judge every request of the kind's
+    universe (or the given ones): yields (request, observed, expected) for each request whose decision - through enforce and
+    enforce_ex - or explaining rule is not that of the rules the matcher is true of"""
+    k = ROLE_CALL_KINDS[sc["kind"]]
+    e = getattr(casbin, cls_name)(casbin.Enforcer.new_model(text=role_call_model_text(sc["kind"], effect)))
+    for r in sc["rules"]:
+        e.add_policy(*r)
+    for l_ in sc["grouping"]:
+        e.add_grouping_policy(*l_)
+    stored = [list(r) for r in e.get_policy()]
+    n = 0
+    bad = []
+    for q in (requests if requests is not None else k["requests"]()):
+        n += 1
+        hits = [i for i, r in enumerate(sc["rules"]) if k["match"](sc["grouping"], q, r)]
+        dec, pos = role_call_spec(eidx, [sc["rules"][i][-2] for i in hits])
+        want = dict(decision=dec, explanation=(sc["rules"][hits[pos]] if pos is not None else []))
+        try:
+            d1 = bool(e.enforce(*q))
+            gx = e.enforce_ex(*q)
+            got = dict(decision=bool(gx[0]), explanation=list(gx[1]), enforce=d1)
+        except Exception as exc:  # noqa
+            got = dict(raised=type(exc).__name__, message=str(exc)[:120])
+        if got != dict(want, enforce=dec):
+            bad.append((q, got, want))
+    return n, bad, stored
+
+
+def role_calls_stratum(chk, prop_words, effects=None, n_random=None, classes=("Enforcer",)):
+    """every scenario x effect x request of the universe; one failing request per run is reported (the first of the first
+    failing scenario: scenarios are small by construction).  Returns the number of judged requests."""
+    import random as _random
+    rng = _random.Random(chk.seed * 31 + 20261002)
+    if n_random is None:
+        n_random = 5 if chk.tier == "quick" else 40
+    effects = effects or [(ef, ix) for ef, ix in EFFECTS if not ef.startswith("subjectPriority")]
+    n = 0
+    for sc in role_call_scenarios(rng, n_random):
+        for effect, eidx in effects:
+            for cls_name in classes:
+                k, bad, stored = judge_role_call_scenario(sc, effect, eidx, cls_name)
+                n += k
+                chk.count(("role-calls", sc["kind"], effect, cls_name, repr(sc["grouping"]), repr(sc["rules"])), n=k)
+                if stored != sc["rules"]:
+                    chk.disagree(dict(sc, stratum="role-calls"), stored, sc["rules"], where="harness premise: rules not stored as given")
+                if bad:
+                    q, got, want = bad[0]
+                    chk.spec_fail(dict(stratum="role-calls", kind=sc["kind"], matcher=ROLE_CALL_KINDS[sc["kind"]]["matcher"], effect=effect,
+                                       enforcer=cls_name, grouping=sc["grouping"], rules=sc["rules"], request=q), got, want, prop_words)
+                    return n
+    return n
+
+
+def replay_role_call(c):
+    """re-run the one recorded request of a role-calls case; returns (observed, expected) when it still fails, else None"""
+    eidx = dict(EFFECTS)[c["effect"]]
+    _, bad, _ = judge_role_call_scenario(dict(kind=c["kind"], grouping=c["grouping"], rules=c["rules"]), c["effect"], eidx,
+                                         c.get("enforcer", "Enforcer"), requests=[c["request"]])
+    return (bad[0][1], bad[0][2]) if bad else None
